@@ -124,3 +124,19 @@ register(
     assumptions=ASSUME_STRUCT + ["attribute names are data attributes (not parent/children/target, not dunder, not attributes of the link's class)"],
     components={"real": REAL, "stub": "none", "harness": HARNESS},
 )
+register(
+    "C19",
+    "snap",
+    quick=30000,
+    thorough=600000,
+    level="exploration",
+    title="pickle and deepcopy yield an independent, consistent, isomorphic tree",
+    rule="runs = seeded history on the original (half of them 'lazy': never observed before the snapshot, so lazily-absent "
+    "bookkeeping attributes survive), snapshot of a drawn entry node by pickle protocol 0..5 (2..5 for __slots__ classes) or "
+    "deepcopy, isomorphism/identity-disjointness/consistency check, then mutations of the copy only, then of the original "
+    "only, with the other side compared before/after.  A sample of pickles is also restored in a fresh interpreter with "
+    "another PYTHONHASHSEED (probes.fresh_process_restores).  Signature of a snapshot case = (forest shape with the entry "
+    "marked, method, classes in reach order, lazy flag); of an op = (side, shape with arguments marked, op kind, outcome).",
+    assumptions=ASSUME_STRUCT + ["tree depth <= universe size (<= 18), far below Python's pickling recursion limit"],
+    components={"real": REAL + "; pickle/copy from the standard library", "stub": "none", "harness": HARNESS},
+)
